@@ -59,7 +59,12 @@ func c17ValidConfig(rnd *rand.Rand, origins []string, ports []int, nasty bool) *
 	}
 	nCache := 1 + rnd.Intn(3)
 	for i := 0; i < nCache; i++ {
-		cfg.Caches = append(cfg.Caches, config.CacheConfig{Name: name("cache", i), Size: 1 + rnd.Intn(5000), HitForPass: []string{"5m", "30s", "1h", "500ms"}[rnd.Intn(4)], Remark: free()})
+		cc := config.CacheConfig{Name: name("cache", i), Size: 1 + rnd.Intn(5000), HitForPass: []string{"5m", "30s", "1h", "500ms"}[rnd.Intn(4)], Remark: free()}
+		if nasty && rnd.Intn(5) == 0 {
+			// a well-formed store url that cannot be opened when the configuration is applied
+			cc.Store = "badger:///dev/null/c17-store"
+		}
+		cfg.Caches = append(cfg.Caches, cc)
 	}
 	nUp := 1 + rnd.Intn(3)
 	for i := 0; i < nUp; i++ {
